@@ -87,7 +87,8 @@ let components : (string * (string list * (unit -> z -> tok list -> tok list))) 
   ("sf", (["cfg"; "pkt"; "live"], mk fo_new fo_step));
   ("wifi", (["wep"; "tkip"; "ccmp"; "aes"; "hs"], mk [] wifi_step));
   ("cap", (["ts"; "loop"], mk () cap_step));
-  ("tlv", (["dec"; "enc"], mk () tlv_step));
+  ("tlv", (["dec"; "enc"; "hist"], mk () tlv_step));
+  ("ls", (["new"; "seg"], mk (dt_new Z0) ls_step));
   ("ipr", (["pkt"], mk [] ipr_step));
   ("ack", (["new"; "pkt"; "q"], mk (ack_new Z0 false) ack_step));
 ]
